@@ -16,7 +16,8 @@ VARIABLE c
 vars == <<c>>
 
 N(x, p, s) == [xml |-> x, pascal |-> p, snake |-> s]
-Names == [value |-> N("value", "Value", "value"),
+Names == [WideText |-> N("WideText", "WideText", "wide_text"), MidText |-> N("MidText", "MidText", "mid_text"), SmallText |-> N("SmallText", "SmallText", "small_text"), small |-> N("small", "Small", "small"),
+                     value |-> N("value", "Value", "value"),
                      AllRequired |-> N("AllRequired", "AllRequired", "all_required"),
                      AllOptional |-> N("AllOptional", "AllOptional", "all_optional"),
                      AllRepeated |-> N("AllRepeated", "AllRepeated", "all_repeated"),
@@ -199,14 +200,32 @@ TypeCases ==
                        Simple("NarrowLevel", T("t", "LevelType"), << <<"maxInc", 5>> >>),
                        Simple("ShortCode", B("string"), << <<"minLen", 2>>, <<"maxLen", 4>> >>),
                        Simple("TinyCode", B("string"), << <<"enum", "A">>, <<"enum", "BB">> >>),
+                       Simple("WideText", B("string"), << <<"maxLen", 12>> >>),
+                       Simple("MidText", T("t", "WideText"), << <<"minLen", 2>> >>),
+                       Simple("SmallText", T("t", "MidText"), << <<"maxLen", 4>> >>),
                        Cx("RestrictedHolder", None,
                           << El("level", T("t", "LevelType"), 1, "1"), El("code", T("t", "ShortCode"), 0, "1"), El("tiny", T("t", "TinyCode"), 0, "1"),
-                             El("narrow", T("t", "NarrowLevel"), 0, "1"), El("levels", T("t", "LevelType"), 0, "unb") >>, <<>>) >>) >>,
+                             El("narrow", T("t", "NarrowLevel"), 0, "1"), El("levels", T("t", "LevelType"), 0, "unb"),
+                             El("small", T("t", "SmallText"), 0, "1") >>, <<>>) >>) >>,
+   three_ns |-> << Xsd("main.xsd", "Unear", << <<"t", "Unear">>, <<"o", "Ufar">> >>,
+                    << Imp("Ufar", "far.xsd"),
+                       Cx("FocusType", None, << El("subjectMember", B("string"), 1, "1"), Ref("o", "GlobalThing", 0, "1") >>, <<>>) >>),
+                      Xsd("far.xsd", "Ufar", << <<"o", "Ufar">>, <<"m", "Uthird">> >>,
+                    << Imp("Uthird", "third.xsd"), ElemT("GlobalThing", T("m", "OtherType")) >>),
+                      Xsd("third.xsd", "Uthird", << <<"m", "Uthird">> >>,
+                    << Cx("OtherType", None, << El("otherValue", B("string"), 1, "1") >>, <<>>) >>) >>,
+   sibling_collide |-> << Xsd("main.xsd", "Unear", << <<"t", "Unear">> >>,
+                    << Imp("Uv1", "v1.xsd"), Imp("Uv2", "v2.xsd"),
+                       [k |-> "complex", n |-> "FocusType", base |-> None, xmlns |-> << <<"a", "Uv1">>, <<"b", "Uv2">> >>,
+                        content |-> << SeqP(1, "1", << El("subjectMember", T("a", "OtherType"), 1, "1"), El("tailMember", T("b", "FarType"), 0, "1") >>) >>,
+                        attrs |-> <<>>] >>),
+                      Xsd("v1.xsd", "Uv1", << <<"x", "Uv1">> >>, << Cx("OtherType", None, << El("otherValue", B("string"), 1, "1") >>, <<>>) >>),
+                      Xsd("v2.xsd", "Uv2", << <<"x", "Uv2">> >>, << Cx("FarType", None, << El("farValue", B("string"), 1, "1") >>, <<>>) >>) >>,
    keywords |-> << Xsd("main.xsd", "Unear", NearX,
                     << Cx("kw_self", None, << El("kw_type", B("string"), 1, "1"), El("kw_match", B("int"), 0, "1"), El("kw_async", B("string"), 0, "unb"),
                                               El("kw_crate", B("boolean"), 1, "1") >>,
                           << At("kw_self", B("string"), "opt") >>) >>) >>]
-TypeLabels == IF Tier = "quick" THEN {"builtins_req", "builtins_vec", "positions", "extension_near", "extension_far", "simple_restricted", "keywords"}
+TypeLabels == IF Tier = "quick" THEN {"builtins_req", "builtins_vec", "positions", "extension_near", "extension_far", "simple_restricted", "keywords", "three_ns", "sibling_collide"}
               ELSE DOMAIN TypeCases
 
 \* ---- WSDL shapes
@@ -269,14 +288,15 @@ SetOf(x) == [files |-> FilesOf(x), start |-> FilesOf(x)[1].name]
 \* the struct table the schema prescribes
 TargetJ(t) == IF t.k = "struct" THEN [k |-> "struct", ns |-> t.ns, xml |-> NameRec(t.n).xml, pascal |-> NameRec(t.n).pascal] ELSE t
 FieldJ(e) == [xml |-> NameRec(e.xml).xml, snake |-> NameRec(e.xml).snake, w |-> e.w, attr |-> e.attr, target |-> TargetJ(e.target), ns |-> e.ns]
+RECURSIVE SetToSeq(_)
+SetToSeq(X) == IF X = {} THEN <<>> ELSE LET x == CHOOSE y \in X : TRUE IN <<x>> \o SetToSeq(X \ {x})
 StructJ(S, s) == [ns |-> s.ns, xml |-> NameRec(s.n).xml, pascal |-> NameRec(s.n).pascal, kind |-> s.k,
                   facets |-> EffFacets(S, s, 4),
                   valid |-> IF s.k = "simple" THEN ValidText(EffFacets(S, s, 4)) ELSE "?",
                   invalid |-> IF s.k = "simple" THEN InvalidText(EffFacets(S, s, 4)) ELSE "?",
+                  invalids |-> IF s.k = "simple" THEN SetToSeq(InvalidTexts(EffFacets(S, s, 4))) ELSE <<>>,
                   fields |-> IF s.k = "simple" THEN <<>> ELSE LET fs == ExpFields(S, FileNamed(S, s.f), s.it, BodyOf(s)) IN [i \in 1..Len(fs) |-> FieldJ(fs[i])],
                   base |-> IF s.k = "simple" THEN TargetJ(TargetOf(S, FileNamed(S, s.f), s.it, s.it.base)) ELSE [k |-> "none"]]
-RECURSIVE SetToSeq(_)
-SetToSeq(X) == IF X = {} THEN <<>> ELSE LET x == CHOOSE y \in X : TRUE IN <<x>> \o SetToSeq(X \ {x})
 Expect(S) == LET ss == SetToSeq(StructComps(S)) IN [i \in 1..Len(ss) |-> StructJ(S, ss[i])]
 
 \* operation shapes as the WSDL declares them (body part: named by parts=, else the part no header names)
@@ -324,7 +344,8 @@ WellFormed == LET S == SetOf(c) IN
 Emit == PrintT(<<"CASE", ToJson(CaseOf(c))>>)
 
 Vocab == [names |-> Names, tokens |-> TokTab,
-          uris |-> [Unear |-> [uri |-> "http://zv.test/cr/near"], Ufar |-> [uri |-> "http://zv.test/cr/far"], Usvc |-> [uri |-> "http://zv.test/cr/service"]],
+          uris |-> [Unear |-> [uri |-> "http://zv.test/cr/near"], Ufar |-> [uri |-> "http://zv.test/cr/far"], Usvc |-> [uri |-> "http://zv.test/cr/service"],
+                    Uthird |-> [uri |-> "http://zv.test/cr/third"], Uv1 |-> [uri |-> "http://zv.test/cr/v1/types"], Uv2 |-> [uri |-> "http://zv.test/cr/v2/types"]],
           texts |-> [addr |-> "http://127.0.0.1:1/zv/items", act |-> "http://zv.test/cr/service/action"]]
 ASSUME PrintT(<<"VOCAB", ToJson(Vocab)>>)
 =======================================================================
